@@ -1,4 +1,306 @@
-import Kap.Basic
+/-
+Driver for C04: reads cases produced by the Go harness (which compiled the expression with the REAL
+`stateful.NewExpression` and evaluated it over a history of scopes through `Eval`, `Type`+`EvalBool`, direct
+`EvalX`, on the expression and on `CopyReset` copies), replays every case on the model (`evalC` with its
+cache, float operations = Lean `Float`, table/signatures = regenerated `Kap.C04.Gen`) and on the reference
+semantics (`Kap.C04.expect`), and judges
+  * the property itself on the OBSERVED answer (SPECFAIL, checked first), and
+  * observed = model (MISMATCH).
+-/
+import Kap.Spec.C04
+import Kap.Gen.C04
+import Kap.Gen.C04Sigs
+open Kap Kap.C04
 
-/-- Driver for property C04 (replaced by the property's driver). -/
-def main : IO Unit := Kap.driverMain (fun _ _ => .badop "driver not implemented")
+namespace Kap.C04.Drv
+
+/-- Go's `int64(f)` on amd64 (`CVTTSD2SI`): NaN and out-of-range give `MinInt64`. -/
+def goToI64 (f : Float) : Int :=
+  if f.isNaN || f ≥ 9223372036854775808.0 || f < -9223372036854775808.0 then -9223372036854775808
+  else f.toInt64.toInt
+
+def floatOps : FOps Float where
+  add := (· + ·)
+  sub := (· - ·)
+  mul := (· * ·)
+  div := (· / ·)
+  lt a b := decide (a < b)
+  le a b := decide (a ≤ b)
+  gt a b := decide (a > b)
+  ge a b := decide (a ≥ b)
+  eq a b := a == b
+  ne a b := a != b
+  ofInt i := (Int64.ofInt i).toFloat
+  toI64 := goToI64
+  abs := Float.abs
+  sqrt := Float.sqrt
+  posInf := 1.0 / 0.0
+  negInf := -1.0 / 0.0
+
+abbrev V := Value Float
+abbrev E := Expr Float
+
+def hexNat (s : String) : Option Nat :=
+  s.toList.foldlM (fun acc c => (hexVal c).map (fun d => acc * 16 + d)) 0
+
+def hex16 (n : Nat) : String :=
+  String.ofList ((List.range 16).map (fun i => hexDigit ((n / 16 ^ (15 - i)) % 16))) |>.toLower
+
+def splitFirst (s : String) (c : Char) : String × String :=
+  match s.splitOn (String.singleton c) with
+  | [] => ("", "")
+  | a :: rest => (a, (String.singleton c).intercalate rest)
+
+def parseVal (tok : String) : Option V :=
+  if tok == "m" then some .missing else
+  let (k, body) := splitFirst tok ':'
+  match k with
+  | "b" => some (.bool (body == "1"))
+  | "i" => body.toInt?.map .int
+  | "d" => body.toInt?.map .dur
+  | "t" => body.toInt?.map .time
+  | "f" => (hexNat body).map (fun n => .float (Float.ofBits (UInt64.ofNat n)))
+  | "s" => (unesc body).map .str
+  | "r" => (unesc body).map .regex
+  | _ => none
+
+def renderVal : V → String
+  | .bool b => s!"b:{boolTok b}"
+  | .int i => s!"i:{i}"
+  | .dur d => s!"d:{d}"
+  | .time t => s!"t:{t}"
+  | .float f => if f.isNaN then "f:nan" else s!"f:{hex16 f.toBits.toNat}"
+  | .str s => s!"s:{esc s}"
+  | .regex p => s!"r:{esc p}"
+  | .missing => "m"
+
+/-- canonical form of an observed value token (all NaNs are one value). -/
+def canonObs (tok : String) : String :=
+  match parseVal tok with
+  | some v => renderVal v
+  | none => tok
+
+def parseBOp : String → Option BOp
+  | "and" => some .and | "or" => some .or | "eq" => some .eq | "ne" => some .ne | "lt" => some .lt
+  | "le" => some .le | "gt" => some .gt | "ge" => some .ge | "reEq" => some .reEq | "reNe" => some .reNe
+  | "plus" => some .plus | "minus" => some .minus | "mult" => some .mult | "div" => some .div | "mod" => some .mod
+  | _ => none
+
+def tyName : Ty → String
+  | .invalid => "invalid" | .float => "float" | .int => "int" | .string => "string" | .bool => "bool"
+  | .regex => "regex" | .time => "time" | .duration => "duration" | .missing => "missing"
+
+partial def parseExpr : List String → Option (E × List String)
+  | "L" :: v :: rest => (parseVal v).map (fun x => (.lit x, rest))
+  | "R" :: n :: rest => (unesc n).map (fun x => (.ref x, rest))
+  | "U" :: op :: rest => do
+    let o ← (match op with | "not" => some UOp.not | "neg" => some UOp.neg | _ => none)
+    let (e, rest) ← parseExpr rest
+    pure (.un o e, rest)
+  | "B" :: op :: rest => do
+    let o ← parseBOp op
+    let (l, rest) ← parseExpr rest
+    let (r, rest) ← parseExpr rest
+    pure (.bin o l r, rest)
+  | "FM" :: fn :: rest => some (.callMany fn, rest)
+  | "F" :: fn :: "0" :: rest => some (.call0 fn, rest)
+  | "F" :: fn :: "1" :: rest => do
+    let (a, rest) ← parseExpr rest
+    pure (.call1 fn a, rest)
+  | "F" :: fn :: "2" :: rest => do
+    let (a, rest) ← parseExpr rest
+    let (b, rest) ← parseExpr rest
+    pure (.call2 fn a b, rest)
+  | "F" :: fn :: "3" :: rest => do
+    let (a, rest) ← parseExpr rest
+    let (b, rest) ← parseExpr rest
+    let (c, rest) ← parseExpr rest
+    pure (.call3 fn a b c, rest)
+  | _ => none
+
+def parseScope : List String → Option (Scope Float)
+  | [] => some []
+  | n :: v :: rest => do
+    let n ← unesc n
+    let v ← parseVal v
+    let r ← parseScope rest
+    pure ((n, v) :: r)
+  | _ => none
+
+/-- oracle tables of one case -/
+structure Ora where
+  calls : List (String × List String × ORes Float) := []   -- fn, rendered args, result
+  res : List (String × String × Bool) := []
+
+def mkCtx (o : Ora) : Ctx Float :=
+  { ops := floatOps, tbl := Gen.table, sigs := Gen.sigs,
+    reMatch := fun p s => (o.res.find? (fun x => x.1 == p && x.2.1 == s)).map (·.2.2),
+    call := fun fn args =>
+      let key := args.map renderVal
+      (o.calls.find? (fun x => x.1 == fn && x.2.1 == key)).map (·.2.2) }
+
+/-- model branches visible at one evaluation (node-local conditions on the actual operand types). -/
+partial def brOf (ctx : Ctx Float) (σ : Scope Float) : E → Cache → List String
+  | .lit _, _ => []
+  | .ref n, _ => (match σ.get n with | none => ["ref-undefined"] | some .missing => ["ref-missing"] | _ => [])
+  | .un op e, c =>
+    (match op, typeP ctx σ e with
+     | .neg, some .bool => ["neg-bool-err"]
+     | .neg, some .int => ["neg-int"] | .neg, some .float => ["neg-float"] | .neg, some .duration => ["neg-dur"]
+     | .neg, _ => ["neg-other"]
+     | .not, some .bool => ["not-bool"] | .not, _ => ["not-nonbool"]) ++ brOf ctx σ e c.k1
+  | .bin op l r, c =>
+    let dyn := isDyn ctx l || isDyn ctx r
+    let here :=
+      if dyn then
+        match typeP ctx σ l, typeP ctx σ r with
+        | some tl, some tr =>
+          let flip := if (c.lt != .invalid || c.rt != .invalid) && (c.lt != tl || c.rt != tr) then ["dyn-typeflip"] else ["dyn-sametypes"]
+          (match lookup ctx.tbl op tl tr with
+           | some ent =>
+             flip ++ (if ent.zeroGuard then ["entry-zeroguard"] else []) ++
+               (match ent.shape with | .andSC => ["entry-and"] | .orSC => ["entry-or"] | _ => []) ++
+               (if tl != tr then ["entry-mixed-types"] else [])
+           | none => flip ++ ["dyn-lookup-nil"])
+        | none, _ => ["dyn-left-type-err"]
+        | _, none => ["dyn-right-type-err"]
+      else ["const-node"]
+    here ++ brOf ctx σ l c.k1 ++ brOf ctx σ r c.k2
+  | .call0 fn, _ => [if stateful (F := Float) (.call0 fn) then "call-stateful" else "call0"]
+  | .call1 fn a, c =>
+    [if stateful (F := Float) (.call0 fn) then "call-stateful" else if fn == "isPresent" then "call-isPresent" else "call1"] ++
+      (if typeP ctx σ a == some .missing then ["arg-missing"] else []) ++ brOf ctx σ a c.k1
+  | .call2 _ a b, c => ["call2"] ++ brOf ctx σ a c.k1 ++ brOf ctx σ b c.k2
+  | .call3 fn a b d, c =>
+    [if fn == "if" then "call-if" else if fn == "strSubstring" then "call-substr" else "call3"] ++
+      brOf ctx σ a c.k1 ++ brOf ctx σ b c.k2 ++ brOf ctx σ d c.k3
+  | .callMany _, _ => ["call-too-many-args"]
+
+structure St where
+  expr : Option E := none
+  ora : Ora := {}
+  compiled : Bool := false
+  cache : Cache := .leaf
+  fns : List (Nat × FnState Float) := []
+  hists : List (Nat × Option (Hist Float)) := []
+  branches : List String := []
+  evals : Nat := 0
+  okSeen : Bool := false
+  flipSeen : Bool := false
+
+def St.addBr (st : St) (bs : List String) : St :=
+  { st with branches := bs.foldl (fun acc b => if acc.contains b then acc else b :: acc) st.branches }
+
+def getI {α} (l : List (Nat × α)) (k : Nat) : Option α := (l.find? (fun p => p.1 == k)).map (·.2)
+def setI {α} (l : List (Nat × α)) (k : Nat) (a : α) : List (Nat × α) := (k, a) :: l.filter (fun p => p.1 != k)
+
+def renderOut : Outcome V → String
+  | .ok v => s!"ok {renderVal v}"
+  | .err => "err"
+  | .trap => "panic"
+
+def parseWant : String → Option Ty
+  | "dInt" => some .int | "dFloat" => some .float | "dString" => some .string
+  | "dBool" => some .bool | "dDuration" => some .duration
+  | _ => none
+
+def judge (_id : String) (lines : Array String) : Verdict := Id.run do
+  let mut st : St := {}
+  for l in lines do
+    let (opT, obs) := splitObs (tokens l)
+    match opT with
+    | "expr" :: rest =>
+      match parseExpr rest with
+      | some (e, []) => st := { st with expr := some e }
+      | _ => return .badop l
+    | ["re", p, s, b] =>
+      let some p := unesc p | return .badop l
+      let some s := unesc s | return .badop l
+      st := { st with ora := { st.ora with res := (p, s, b == "1") :: st.ora.res } }
+    | "ora" :: fn :: rest =>
+      -- ora <fn> <args…> <res>
+      match rest.reverse with
+      | res :: argsRev =>
+        let args := argsRev.reverse
+        let some avs := args.mapM parseVal | return .badop l
+        let r : Option (ORes Float) := if res == "err" then some .err else (parseVal res).map .ok
+        let some r := r | return .badop l
+        st := { st with ora := { st.ora with calls := (fn, avs.map renderVal, r) :: st.ora.calls } }
+      | [] => return .badop l
+    | ["compile"] =>
+      let some e := st.expr | return .badop l
+      let ctx := mkCtx st.ora
+      let m := if compileOk ctx e then "ok" else "err"
+      if obs != [m] then return .mismatch s!"compile: model {m} observed {obs}"
+      st := { st with compiled := m == "ok", cache := compileCache ctx e,
+                      fns := [(0, FnState.init floatOps)], hists := [(0, some {})] }
+      st := st.addBr [if m == "ok" then "compile-ok" else "compile-err"]
+    | ["inst", k] =>
+      let some k := k.toNat? | return .badop l
+      st := { st with fns := setI st.fns k (FnState.init floatOps), hists := setI st.hists k (some {}) }
+      st := st.addBr ["copy-reset"]
+    | "ev" :: k :: path :: binds =>
+      let some e := st.expr | return .badop l
+      if !st.compiled then return .badop s!"ev on an expression that did not compile: {l}"
+      let some k := k.toNat? | return .badop l
+      let some σ := parseScope binds | return .badop l
+      let some fs := getI st.fns k | return .badop s!"unknown instance {l}"
+      let some hs := getI st.hists k | return .badop s!"unknown instance {l}"
+      let ctx := mkCtx st.ora
+      let obsC := match obs with
+        | ["ok", v] => s!"ok {canonObs v}"
+        | o => " ".intercalate o
+      let brs := brOf ctx σ e st.cache
+      if brs.contains "dyn-typeflip" then st := { st with flipSeen := true }
+      st := st.addBr (("path-" ++ path) :: brs)
+      st := { st with evals := st.evals + 1 }
+      if path == "type" then
+        -- Type(scope)
+        let m := match typeP ctx σ e with | some t => s!"ok {tyName t}" | none => "err"
+        match typeRef ctx σ e with
+        | some t => if obsC != s!"ok {tyName t}" then
+            return .specfail "type-of-well-typed" s!"{l}: reference type {tyName t} observed {obsC}"
+        | none => pure ()
+        if obsC == "panic" then return .specfail "no-trap" s!"{l}: Type panicked"
+        if obsC != m then return .mismatch s!"{l}: model {m} observed {obsC}"
+        st := { st with cache := typeW ctx σ e st.cache }
+      else
+        -- the property on the observed answer
+        let want : Option Ty := if path == "eval" then none else if path == "pred" then some .bool else parseWant path
+        if path != "eval" && want.isNone then return .badop l
+        if obsC == "panic" then return .specfail "no-trap" s!"{l}: the evaluation panicked"
+        let mut newH : Option (Hist Float) := none
+        match hs with
+        | some h =>
+          let (ex, h') := expect ctx σ e want h
+          newH := h'
+          match ex with
+          | .exactly o =>
+            if obsC != renderOut o then
+              return .specfail (match o with | .ok _ => "value-is-reference-value" | _ => "fault-is-error")
+                s!"{l}: reference {renderOut o} observed {obsC}"
+            st := st.addBr [match o with | .ok _ => "spec-welltyped-value" | _ => "spec-welltyped-fault"]
+          | .errOr v =>
+            if obsC != "err" && obsC != s!"ok {renderVal v}" then
+              return .specfail "value-is-reference-value" s!"{l}: reference err-or {renderVal v} observed {obsC}"
+            st := st.addBr ["spec-illtyped-unreached"]
+          | .mustErr =>
+            if obsC != "err" then return .specfail "type-error-is-error" s!"{l}: reference err observed {obsC}"
+            st := st.addBr ["spec-illtyped-err"]
+        | none => st := st.addBr ["spec-history-unfixed"]
+        -- the tie
+        let (o, c', fs') :=
+          if path == "eval" then evalTop ctx σ e st.cache fs
+          else if path == "pred" then evalPred ctx σ e st.cache fs
+          else evalDirect ctx σ (want.getD .bool) e st.cache fs
+        if obsC != renderOut o then return .mismatch s!"{l}: model {renderOut o} observed {obsC}"
+        if obsC.startsWith "ok" then st := { st with okSeen := true }
+        st := st.addBr [if obsC.startsWith "ok" then "out-ok" else "out-err"]
+        st := { st with cache := c', fns := setI st.fns k fs', hists := setI st.hists k newH }
+    | _ => return .badop l
+  let nt := st.okSeen && st.evals ≥ 2 && (st.flipSeen || (match st.expr with | some e => stateful e | none => false))
+  return .ok nt st.branches.reverse
+
+end Kap.C04.Drv
+
+def main : IO Unit := Kap.driverMain Kap.C04.Drv.judge
